@@ -14,6 +14,19 @@ theorem mkMsg_ren (s : Sim) (mi kind ttl : Nat) : mkMsg (renSim a s) mi kind ttl
   simp only [mkMsg, renMsg, renSim_mods, renSim_serial, List.getElem?_map]
   cases s.mods[mi]? <;> rfl
 
+theorem requestShutdown_ren (s : Sim) (mi : Nat) (path who : String) (d : Option Nat) :
+    requestShutdown (renSim a s) mi path who d = renSim a (requestShutdown s mi path who d) := by
+  unfold requestShutdown
+  simp only [renSim_mods, List.getElem?_map]
+  cases s.mods[mi]? with
+  | none => rfl
+  | some m =>
+    simp only [Option.map, renMod_inc, renSim_now, log_ren]
+    by_cases hi : m.inc < maxInc
+    · simp only [hi, if_true]
+      exact updMod_ren a _ mi _ _ (fun m => by simp [renMod])
+    · simp only [hi, if_false]
+
 theorem stepSync_ren (net : Net) (s : Sim) (mi : Nat) (path : String) (ttl : Nat) (who : String) (st : Step) :
     stepSync net (renSim a s) mi path ttl who st = renSim a (stepSync net s mi path ttl who st) := by
   cases st with
@@ -53,6 +66,8 @@ theorem stepSync_ren (net : Net) (s : Sim) (mi : Nat) (path : String) (ttl : Nat
   | spawn t => rfl
   | sleep d => rfl
   | sel ds => rfl
+  | shut => exact requestShutdown_ren a s mi path who none
+  | restart d => exact requestShutdown_ren a s mi path who (some d)
 
 theorem spawnTask_ren (m : ModRt) (tag : String) (ttl : Nat) (prog : List Step) :
     spawnTask (renMod a m) tag ttl prog = renMod a (spawnTask m tag ttl prog) := by
@@ -79,6 +94,8 @@ theorem runHandler_ren (net : Net) (mi : Nat) (path : String) (ttl : Nat) (steps
     | sched d k => simp only [runHandler]; rw [stepSync_ren]; exact ih _
     | sleep d => simp only [runHandler]; rw [stepSync_ren]; exact ih _
     | sel ds => simp only [runHandler]; rw [stepSync_ren]; exact ih _
+    | shut => simp only [runHandler]; rw [stepSync_ren]; exact ih _
+    | restart d => simp only [runHandler]; rw [stepSync_ren]; exact ih _
 
 /-! ### `select!` -/
 
@@ -209,6 +226,8 @@ theorem runTask_ren (h : a.Inj) (net : Net) (mi : Nat) (path tag : String) (ti t
     | draw32 => simp only [runTask]; rw [stepSync_ren]; exact ih _
     | send d k => simp only [runTask]; rw [stepSync_ren]; exact ih _
     | sched d k => simp only [runTask]; rw [stepSync_ren]; exact ih _
+    | shut => simp only [runTask]; rw [stepSync_ren]; exact ih _
+    | restart d => simp only [runTask]; rw [stepSync_ren]; exact ih _
 
 theorem pollTask_ren (h : a.Inj) (net : Net) (s : Sim) (mi : Nat) (path : String) (ti : Nat) :
     pollTask net a (renSim a s) mi path ti = renSim a (pollTask net Ambient.canon s mi path ti) := by
